@@ -20,6 +20,11 @@ echo "demo exit with patch=$WITH without=$WITHOUT build=$BUILD"
 # run the checks against the worktree itself (it has the patch applied); /repo is not touched, so
 # other runs can go on concurrently. (For the record the same was also done via git apply to /repo
 # for the first wave.)
+# worktrees created before a later fix: commit landed in /repo get those fixes too (the checks judge
+# the seeded change, not defects /repo no longer has); BASE_FIXES lists patch files to try.
+for f in ${BASE_FIXES:-}; do
+  (cd $WT && git apply --check $f 2>/dev/null && git apply $f && echo "applied base fix $(basename $f)")
+done
 RES=""
 for C in $P "$@"; do
   cd /verif && OUT=$(VERIF_REPO=$WT VERIF_OUT=/tmp/seedout-$NAME ./check $C quick 2>&1); RC=$?
